@@ -70,9 +70,33 @@ func (r *rec) Close() error { r.mu.Lock(); r.closes++; r.mu.Unlock(); return nil
 // h265 selects the HEVC payload layout (2-byte NAL header) for MakePacket; set per case by Run.
 var h265 bool
 
+// fua makes H.264 video packets FU-A fragments of IDR units (kind 2 = start fragment; kind 1 = middle
+// fragment, or the end fragment when id%3 == 0), so that the RTP demuxer reassembles units from the very
+// packet objects that sit in the consumers' queues and in the GOP cache.
+var fua bool
+
 func MakePacket(id int64, kind int64) *rtp.Packet {
 	if h265 {
 		return makePacket265(id, kind)
+	}
+	if fua && (kind == 1 || kind == 2) {
+		fuh := byte(0x05) // middle fragment of a type-5 unit
+		if kind == 2 {
+			fuh = 0x85 // start
+		} else if id%3 == 0 {
+			fuh = 0x45 // end
+		}
+		d := make([]byte, 12+2+4+2)
+		d[0] = 0x80
+		d[1] = 96
+		d[2], d[3] = byte(id>>8), byte(id)
+		d[12], d[13] = 0x7c, fuh
+		d[14], d[15], d[16], d[17] = byte(id>>24), byte(id>>16), byte(id>>8), byte(id)
+		pk := &rtp.Packet{Channel: byte(rtp.ChannelVideo), Data: d}
+		if err := pk.Header.Unmarshal(pk.Data); err != nil {
+			panic(err)
+		}
+		return pk
 	}
 	nal := byte(0x41)
 	ch := byte(rtp.ChannelVideo)
@@ -166,6 +190,9 @@ func makePacket265(id int64, kind int64) *rtp.Packet {
 
 func idOf(pk *rtp.Packet) int64 {
 	d := pk.Data
+	if fua && !h265 && pk.Channel == byte(rtp.ChannelVideo) && d[12]&0x1f == 28 {
+		return int64(d[14])<<24 | int64(d[15])<<16 | int64(d[16])<<8 | int64(d[17])
+	}
 	return int64(d[13])<<24 | int64(d[14])<<16 | int64(d[15])<<8 | int64(d[16])
 }
 
@@ -184,6 +211,7 @@ func Run(c Val) Val {
 	}
 	media.VerifSetMaxQLen(maxq)
 	h265 = c.At(10).Bool()
+	fua = c.At(11).Bool() && !h265 && !c.At(8).Bool()
 	ctl := sched.New()
 	ctl.Skip["sweep.zero"] = 1 // close() sweeps the (empty) FLV consumers first; the model's K2 is the RTP sweep
 	sdpText := sdpH264
